@@ -61,7 +61,7 @@ CHECKS = {
             U('^TestC04_PaginatedScenarios$', (3, 8000), (4, 200000)),
             U('^TestC04_WideWeights$', (2, 8000), (3, 200000)),
         ],
-        essential_labels=['kind:dense', 'kind:sparse', 'kind:paginated', 'event:array-shift', 'event:page-created', 'event:buffer-compacted', 'op:merge', 'op:encdec', 'op:proto', 'op:reweight', 'op:copy', 'op:clear', 'large-scale', 'shape:round-robin', 'paginated-method-mergewithproto', 'clear-refill-same-size', 'mutate-many:non-add', 'large-scale-merge-phase', 'paginated-scenario', 'wide-weights', 'weight>=2^53'],
+        essential_labels=['kind:dense', 'kind:sparse', 'kind:paginated', 'event:array-shift', 'event:page-created', 'event:buffer-compacted', 'op:merge', 'op:encdec', 'op:proto', 'op:reweight', 'op:copy', 'op:clear', 'large-scale', 'shape:round-robin', 'paginated-method-mergewithproto', 'clear-refill-same-size', 'mutate-many:non-add', 'large-scale-merge-phase', 'paginated-scenario', 'wide-weights', 'weight>=2^53', 'weights-underflowed-to-zero'],
         assumptions=COMMON_ASSUMPTIONS + ["weights are dyadic and bounded so that every float64 partial sum is exact (DESIGN §1.1); index spans are capped per store kind by memory"],
     ),
     'C05': dict(
@@ -72,7 +72,7 @@ CHECKS = {
             U('^TestC05_LargeScale$', (2, 150), (1, 6000)),
             U('^TestC05_WideWeights$', (3, 8000), (4, 200000)),
         ],
-        essential_labels=['kind:collow', 'kind:colhigh', 'folded', 'op-after-fold', 'merge-same-kind', 'merge-wide-into-empty', 'add-beyond-edge-after-collapse', 'wide-weights', 'weight>=2^53'],
+        essential_labels=['kind:collow', 'kind:colhigh', 'folded', 'op-after-fold', 'merge-same-kind', 'merge-wide-into-empty', 'add-beyond-edge-after-collapse', 'wide-weights', 'weight>=2^53', 'weights-underflowed-to-zero'],
         assumptions=COMMON_ASSUMPTIONS + ["fold(M,N) model: folding is history-independent (DESIGN §2 C05); dyadic weights"],
     ),
     'C06': dict(
@@ -107,14 +107,14 @@ CHECKS = {
     ),
     'C11': dict(
         level='exploration',
-        units=[U('^TestC11$', (8, 12000), (16, 100000))],
-        essential_labels=['W<1', 'one-sided', 'reached-by-reweight', 'fractional-weights', 'mode:single-light', 'mode:several-light', 'pos:dense', 'pos:sparse', 'pos:paginated'],
+        units=[U('^TestC11$', (8, 12000), (16, 100000)), U('^TestC11_HugeTotal$', (2, 8000), (4, 150000))],
+        essential_labels=['W<1', 'one-sided', 'reached-by-reweight', 'fractional-weights', 'mode:single-light', 'mode:several-light', 'mode:huge-total', 'W>=2^53', 'pos:dense', 'pos:sparse', 'pos:paginated'],
         assumptions=COMMON_ASSUMPTIONS + ["'within one unit of weight' is taken as distance(rank, cumulative-weight interval) <= 1 (DESIGN §2 C11)"],
     ),
     'C12': dict(
         level='exploration',
         units=[U('^TestC12$', (8, 6000), (16, 50000))],
-        essential_labels=['shape:all-negative', 'shape:all-zero', 'shape:zero+negative', 'shape:single-value', 'shape:sub-minimum', 'shape:mixed', 'after-merge', 'after-clear', 'after-decode', 'same-signed-sum', 'pos:collow', 'pos:colhigh', 'pos:paginated'],
+        essential_labels=['shape:all-negative', 'shape:all-zero', 'shape:zero+negative', 'shape:single-value', 'shape:sub-minimum', 'shape:mixed', 'after-merge', 'after-clear', 'after-decode', 'same-signed-sum', 'pos:collow', 'pos:colhigh', 'pos:paginated', 'weights-underflowed-to-zero'],
         assumptions=COMMON_ASSUMPTIONS + ["accuracy of min/max/sum w.r.t. raw values is asserted only when no collapsing store took part in the history"],
     ),
     'C13': dict(
@@ -144,7 +144,7 @@ CHECKS = {
     'C17': dict(
         level='exploration',
         units=[U('^TestC17$', (8, 8000), (16, 60000)), U('^TestC17_ExtremeFanout$', (3, 10), (8, 300))],
-        essential_labels=['relation:equal', 'relation:finer', 'relation:coarser', 'relation:aligned', 'identity', 'scale:1', 'scale:other', 'negative-side', 'variant:exact', 'shape:single-bin', 'shape:two-far-bins', 'source:paginated', 'target:dense', 'target:sparse', 'relation:extreme-fanout', 'fanout>2^20'],
+        essential_labels=['relation:equal', 'relation:finer', 'relation:coarser', 'relation:aligned', 'identity', 'scale:1', 'scale:other', 'negative-side', 'variant:exact', 'shape:single-bin', 'shape:two-far-bins', 'source:paginated', 'target:dense', 'target:sparse', 'relation:extreme-fanout', 'fanout>2^20', 'source-offset:large', 'target-offset:large'],
         assumptions=COMMON_ASSUMPTIONS + ["weight tolerance 64*2^-52/min(alpha1,alpha2)*W (each proportion is a ratio of differences of nearly equal bounds)", "values in [1e-4,1e4] and scale in [1e-3,1e3]: well inside both mappings' ranges, as the property requires"],
     ),
     'C18': dict(
